@@ -2095,7 +2095,7 @@ class PseudoNetCDFFile(PseudoNetCDFSelfReg, object):
                     sliceoi = tuple(sliceoi)
                     point_arrays.append(np.expand_dims(
                         varo[sliceoi], axis=concatax))
-                newvals = np.concatenate(point_arrays, axis=concatax)
+                newvals = np.ma.concatenate(point_arrays, axis=concatax)
             else:
                 newvals = varo[sliceo]
             try:
